@@ -278,6 +278,10 @@ func (c *C09Case) Run() (res stat.Result) {
 	}
 	for i, e := range []error{e0, ea, eb} {
 		if e != nil {
+			if _, ok := e.(errWorkerTimeout); ok {
+				res.Inconclusive = "C09 worker: " + e.Error()
+				return
+			}
 			which := []string{"no prelude", "prelude A", "prelude B"}[i]
 			if id := c09Classify(c, e.Error()); id != "" {
 				res.Known = append(res.Known, id)
